@@ -89,9 +89,9 @@ def run(chk):
         str(items[-1][0]) == 'LITERAL' and items[-1][1] == ord(K['CR']) and \
         all(str(it[0]) == 'SUBPATTERN' for it in items[1:-2]) and len(items[1:-2]) == 1 and items[1][1][0] == 1
     chk.ob('C16-F', 'frame regex is SB (group 1) EB CR', ok_shape, 'pattern %r' % pat, setup.loc, key='C16-F|regex-shape')
-    # bounded exhaustive language check of the extracted pattern over the symbolic alphabet {SB, EB, CR, x}
+    # bounded exhaustive language check of the extracted pattern over the symbolic alphabet {SB, EB, CR, LF, x}
     rx = re.compile(pat)
-    alpha = [K['SB'], K['EB'], K['CR'], 'x']
+    alpha = [K['SB'], K['EB'], K['CR'], '\n', 'x']      # LF: the one character `.` does not match by default
     import itertools
     nstr = 0
     bad = None
